@@ -13,6 +13,7 @@ import numpy as np
 
 ID = "C05"
 SUPERVISED = True
+MAX_CRASHES = 1000      # crashing cases tolerated per unit before it is abandoned (the python -O variant of the raw calls has ~150)
 CASE_TIMEOUT = 25.0
 CONFIRM = True
 REPLAY_TIMEOUT = 120
@@ -847,6 +848,12 @@ def preload():
                 return w
             setattr(mod, name, mk(fn, "%s.%s" % (mod.__name__.replace("c_hydrodiy_", ""), name)))
         mod._verif_wrapped = True
+
+
+def env_always_units(unit, variant):
+    """the direct calls of the compiled-module functions run in the python -O variant every time (their only
+    length check is a Cython assert: listed in known_findings.json)"""
+    return variant == "python -O" and unit["entry"] in ("raw.mismatched", "c_data.dates")
 
 
 def units(tier, seed):
